@@ -18,7 +18,7 @@ func init() { checks["C07"] = c07 }
 func c07(args []string) {
 	c := chk.New("C07", "exploration", args)
 	c.Build(false)
-	c.Rule("(a) mixed-cores contention workloads (max in {2,3,4,6}, multisets of task classes with cores in 1..max; every fourth workload has an additional process with CoresPerTask = 0, in every fifth the commands of one process print 200 kB while they hold their slots) with yields of up to 3 ms at slots.before_lock / slots.deposit / slots.release so that token-by-token acquisitions of different tasks interleave whenever the lock does not prevent it: must terminate (structural hang classifier, never elapsed time); (a1) one task waiting more than 10 s for the only slot; (a3) a streaming-only producer in front of a task that needs every slot, a Concatenator between tasks with a single slot, a FileSplitter in front of tasks that need every slot: must terminate; (a2) the same with outputs of waiting tasks appearing on disk while they wait (written by sibling tasks): must terminate with every slot given back (shadow counter 0) and every task either run or skipped; (b) rendezvous groups (max in {2,3,4,6, NumCPU+2}; thorough also 2*NumCPU+1): k tasks with k*cores <= max and nothing else ready must all be inside their command at the same time (each announces itself and waits for k announcements; completion is the witness; on expiry the hook event log decides: a waiter blocked in the slot acquisition although free >= needed is a violation, anything else inconclusive); (b3) two workflows in one program: a task of X waiting for X's only slot must not keep Y's tasks from Y's free slots (one rendezvous group across both); (d) workloads driven through the exported task API (NewTask, Execute, Done) with a core count per task that differs from the process's CoresPerTask, all tasks started at once and a last task that needs every slot: must terminate with every output finalized; (c) CoresPerTask > max must be refused by the library (exit != 0 with its own message, no command of that process), a Go-runtime deadlock report is not a refusal. distinct_nontrivial = distinct (max, cores multiset, interleaving signature) of contention runs in which >= 2 tasks overlapped their acquisitions' waiting, plus completed rendezvous groups and refusals")
+	c.Rule("[serial process beside another] a process with Spawn = false whose first task meets a task of another process inside its command, at limit 2: a task that has taken slots and not begun its command for seconds while a member of the group gives up is a slot held idle; (a) mixed-cores contention workloads (max in {2,3,4,6}, multisets of task classes with cores in 1..max; every fourth workload has an additional process with CoresPerTask = 0, in every fifth the commands of one process print 200 kB while they hold their slots) with yields of up to 3 ms at slots.before_lock / slots.deposit / slots.release so that token-by-token acquisitions of different tasks interleave whenever the lock does not prevent it: must terminate (structural hang classifier, never elapsed time); (a1) one task waiting more than 10 s for the only slot; (a3) a streaming-only producer in front of a task that needs every slot, a Concatenator between tasks with a single slot, a FileSplitter in front of tasks that need every slot: must terminate; (a2) the same with outputs of waiting tasks appearing on disk while they wait (written by sibling tasks): must terminate with every slot given back (shadow counter 0) and every task either run or skipped; (b) rendezvous groups (max in {2,3,4,6, NumCPU+2}; thorough also 2*NumCPU+1): k tasks with k*cores <= max and nothing else ready must all be inside their command at the same time (each announces itself and waits for k announcements; completion is the witness; on expiry the hook event log decides: a waiter blocked in the slot acquisition although free >= needed is a violation, anything else inconclusive); (b3) two workflows in one program: a task of X waiting for X's only slot must not keep Y's tasks from Y's free slots (one rendezvous group across both); (d) workloads driven through the exported task API (NewTask, Execute, Done) with a core count per task that differs from the process's CoresPerTask, all tasks started at once and a last task that needs every slot: must terminate with every output finalized; (c) CoresPerTask > max must be refused by the library (exit != 0 with its own message, no command of that process), a Go-runtime deadlock report is not a refusal. distinct_nontrivial = distinct (max, cores multiset, interleaving signature) of contention runs in which >= 2 tasks overlapped their acquisitions' waiting, plus completed rendezvous groups and refusals")
 	c.Assume("head-of-line blocking behind a waiting multi-core task is legal: rendezvous groups are homogeneous and run with nothing else ready", "yields only make legal interleavings frequent (Go is preemptive)")
 	rng := c.Rand("c07")
 	type job struct {
@@ -92,6 +92,23 @@ func c07(args []string) {
 		}
 	}
 	// (b2) a rendezvous group whose first member started early, separated from the other members by short
+	// a process with Spawn = false (two tasks, the first one meets a task of another process inside its command) beside a
+	// process whose input arrives a little later: whatever Spawn = false means for the process's own tasks, a task that is
+	// not executing its command holds no slot the other process's task needs
+	for r := 0; r < c.Pick(2, 6); r++ {
+		in, o1 := []spec.PortDecl{{Name: "in"}}, []spec.PortDecl{{Name: "out"}}
+		s := &spec.Spec{Name: fmt.Sprintf("serialbeside%d", r), MaxTasks: 2, Sources: map[string]string{"s0.txt": "s0", "s1.txt": "s1", "s2.txt": "s2", "x0.txt": "x0"}}
+		s.Procs = append(s.Procs, &spec.Proc{Name: "ssrc", Kind: spec.KFileSource, Files: []string{"s0.txt", "s1.txt", "s2.txt"}},
+			&spec.Proc{Name: "xsrc", Kind: spec.KFileSource, Files: []string{"x0.txt"}}, &spec.Proc{Name: "late", Kind: spec.KRecorder, DelayMS: 300 + 100*(r%3)},
+			&spec.Proc{Name: "ser", Kind: spec.KCmd, NoSpawn: true, Cmd: spec.BuildCmd("ser", in, o1, nil, nil, nil)},
+			&spec.Proc{Name: "X", Kind: []string{spec.KCmd, spec.KGoFunc}[r%2], Cmd: spec.BuildCmd("X", in, o1, nil, nil, nil)})
+		s.Conns = append(s.Conns, &spec.Conn{From: "ssrc.out", To: "ser.in"}, &spec.Conn{From: "xsrc.out", To: "late.in"}, &spec.Conn{From: "late.out", To: "X.in"})
+		bh := vproto.Behaviours{
+			vproto.TaskKey("ser", []vproto.KV{{K: "in", V: "s0.txt"}}, nil, nil): {"rv": "2:g", "rvto": "8000"},
+			vproto.TaskKey("X", []vproto.KV{{K: "in", V: "x0.txt"}}, nil, nil):   {"rv": "2:g", "rvto": "8000"},
+		}
+		jobs = append(jobs, &job{s: s, bh: bh, cfg: Cfg{Buf: 128, Procs: []int{2, 4}[r%2]}, kind: "rendezvous", k: 2, cores: 1})
+	}
 	// tasks of the same process that have already finished: the free slots must be used for the waiting members
 	for _, max := range []int{3, 4, 6} {
 		for r := 0; r < c.Pick(1, 4); r++ {
@@ -376,6 +393,27 @@ func c07(args []string) {
 					}
 					if e.Pt == "task.cmd_start" {
 						started++
+					}
+				}
+				// a task that took its slots seconds ago and has not begun its command: it holds slots without working, and
+				// the members of the group that never got one gave up waiting for it
+				acqAt, cmdBegun := map[string]int64{}, map[string]bool{}
+				for _, e := range res.Events {
+					if e.T > toT {
+						break
+					}
+					switch e.Pt {
+					case "task.slots_acquired":
+						acqAt[e.Tmp] = e.T
+					case "task.cmd_start":
+						cmdBegun[e.Tmp] = true
+					}
+				}
+				for tmp, at := range acqAt {
+					if !cmdBegun[tmp] && toT-at > 3e9 {
+						c.Violation("not-work-conserving:slots-held-by-idle-task", fmt.Sprintf("task %s took its slots %.1f s before the first member of the group gave up and had still not begun its command; %d of %d slots were held, %d of %d members never met", tmp, float64(toT-at)/1e9, held, j.s.MaxTasks, to, j.k),
+							map[string]interface{}{"spec": j.s, "cfg": j.cfg, "behav": j.bh, "held": held})
+						return
 					}
 				}
 				if total := len(j.s.Procs[0].Files); waiting == 0 && delivered && held+j.cores <= j.s.MaxTasks && started < total {
